@@ -48,7 +48,9 @@ class Semaphore {
 
     //! 释放资源
     void release() {
-        if (count_ == 0 && !token_.empty()) {
+        //! 每释放一个资源都要唤醒一个等待者。如果只在"由0变为非0"时才唤醒，
+        //! 连续释放多个资源时，排在后面的等待者就永远不会被唤醒
+        if (!token_.empty()) {
             auto t = token_.front();
             token_.pop();
             sch_.resume(t);
